@@ -80,3 +80,5 @@ Definition dtype_eqb (a b : dtype) : bool :=
   match a, b with DReal, DReal | DComplex, DComplex => true | _, _ => false end.
 
 Definition zeq (A B : zmat) : bool := (A : zV) == (B : zV).
+Definition nats_eqb (a b : seq nat) : bool := a == b.
+Definition bool_eqb (a b : bool) : bool := a == b.
